@@ -13,6 +13,7 @@
 #include <array>
 #include <limits>
 #include <set>
+#include <ctime>
 
 using namespace vh;
 using namespace QXmpp::Private;
@@ -360,25 +361,93 @@ static QString randOffset(Rng &rng) {
     }
 }
 
+// ---- QDateTime values of every time spec.  The XML must depend on the instant only:
+//   * correspondence: datetimeToString(x) against the model's stampToStr (wall-clock fields + offsetFromUtc());
+//   * oracle (no model involved):  the text names its zone (ends in `Z` or `±hh:mm`), datetimeFromString(text) is the
+//     SAME INSTANT as x, and serializing the parsed value again gives the SAME text.
+static bool hasZoneDesignator(const QString &s) {
+    if (s.endsWith(QLatin1Char('Z'))) return true;
+    int n = s.size();
+    return n >= 6 && (s[n - 6] == QLatin1Char('+') || s[n - 6] == QLatin1Char('-')) && s[n - 3] == QLatin1Char(':') &&
+           s[n - 5].isDigit() && s[n - 4].isDigit() && s[n - 2].isDigit() && s[n - 1].isDigit();
+}
+static void stampCase(const QDateTime &x, const std::string &kind) {
+    // QDateTime may have moved a wall-clock time that does not exist (DST gap); x.date()/x.time() is what it holds now
+    if (!x.isValid()) { stat("dt_spec_skipped_invalid"); return; }
+    QDateTime u = x.toUTC();
+    bool inRange = u.date().year() >= 1 && u.date().year() <= 9999;
+    QString s1 = QXmppUtils::datetimeToString(x);
+    char buf[160];
+    snprintf(buf, sizeof buf, "scalar-dtprintspec %s %d %d %d %d %d %d %d %d", kind.c_str(), x.offsetFromUtc(), x.date().year(), x.date().month(),
+             x.date().day(), x.time().hour(), x.time().minute(), x.time().second(), x.time().msec());
+    corr(buf, hexQ(s1));
+    stat("dt_spec_" + kind + (x.time().msec() ? "_with_ms" : "_without_ms"));
+    if (!inRange) { stat("dt_spec_instant_outside_lexical_range"); return; }
+    std::string rep = "spec=" + kind + " offsetFromUtc=" + std::to_string(x.offsetFromUtc()) + " wall=" + x.toString(QStringLiteral("yyyy-MM-dd HH:mm:ss.zzz")).toStdString() +
+                      " utc=" + showDt(u) + " serialized='" + s1.toStdString() + "'";
+    if (!hasZoneDesignator(s1)) oracleFail("C01:datetime-no-zone-designator", rep);
+    else oraclePass()++;
+    QDateTime back = QXmppUtils::datetimeFromString(s1);
+    if (back.isValid() && back.toMSecsSinceEpoch() == x.toMSecsSinceEpoch()) oraclePass()++;
+    else oracleFail("C01:datetime-roundtrip", rep + " parsed=" + showDt(back));
+    QString s2 = back.isValid() ? QXmppUtils::datetimeToString(back) : QString();
+    if (s2 == s1) oraclePass()++;
+    else oracleFail("C01:datetime-reserialize", rep + " reserialized='" + s2.toStdString() + "'");
+    // the same instant held as UTC must give the same text (the XML depends on the instant, not on the spec)
+    if (QXmppUtils::datetimeToString(u) == s1) oraclePass()++;
+    else oracleFail("C01:datetime-depends-on-timespec", rep + " utc-form='" + QXmppUtils::datetimeToString(u).toStdString() + "'");
+    dtParse(s1, "own");
+}
+static void dtSpecs(Rng &rng, bool thorough) {
+    section("dt-time-specs");
+    static const char *zones[] = { "America/New_York", "Europe/Berlin", "Australia/Lord_Howe", "Asia/Kathmandu", "Pacific/Chatham", "Asia/Kolkata",
+                                   "America/St_Johns", "Pacific/Kiritimati", "Africa/Monrovia", "UTC", "Etc/GMT+12" };
+    std::vector<QTimeZone> tzs;
+    for (const char *z : zones) {
+        QTimeZone tz { QByteArray(z) };
+        if (tz.isValid()) tzs.push_back(tz); else stat("dt_spec_zone_id_unavailable");
+    }
+    static const int oddOffsets[] = { 0, 60, -60, 1, -1, 59, 3601, -3599, 19800, 20700, -34200, 45900, 50400, -43200, 86399, -86399, 12345, -23456, 1800, -900 };
+    int n = thorough ? 40000 : 4000;
+    for (int i = 0; i < n; i++) {
+        Civil c = randCivil(rng);
+        if (rng.below(3) == 0) c.y = 1960 + int(rng.below(90));          // where zone rules and DST exist
+        if (rng.below(40) == 0) { c.y = rng.coin() ? 1 : 9999; c.mo = c.y == 1 ? 1 : 12; c.d = c.y == 1 ? 1 : 31; }   // instants that may leave 1..9999
+        QDate d(c.y, c.mo, c.d); QTime t(c.h, c.mi, c.s, c.ms);
+        switch (rng.below(4)) {
+        case 0: stampCase(QDateTime(d, t, Qt::UTC), "utc"); break;
+        case 1: stampCase(QDateTime(d, t, Qt::LocalTime), "local"); break;
+        case 2: {
+            int off = rng.below(3) == 0 ? oddOffsets[rng.below(sizeof oddOffsets / sizeof *oddOffsets)]
+                                        : (int(rng.below(2 * 14 * 4 + 1)) - 14 * 4) * 900;   // -14:00 .. +14:00 in quarter hours
+            stampCase(QDateTime(d, t, Qt::OffsetFromUTC, off), "offset");
+            break;
+        }
+        default:
+            if (!tzs.empty()) stampCase(QDateTime(d, t, tzs[rng.below(uint32_t(tzs.size()))]), "zone");
+            break;
+        }
+    }
+    // fixed witnesses: the same instant through four specs, with and without milliseconds
+    for (int ms : { 0, 123 }) {
+        QDateTime u(QDate(2020, 1, 1), QTime(21, 34, 5, ms), Qt::UTC);
+        stampCase(u, "utc");
+        stampCase(u.toLocalTime(), "local");
+        stampCase(u.toOffsetFromUtc(-34200), "offset");
+        stampCase(u.toOffsetFromUtc(3601), "offset");
+        for (const QTimeZone &tz : tzs) stampCase(u.toTimeZone(tz), "zone");
+    }
+}
+
 static void dateTimes(Rng &rng, bool thorough) {
     // ---- the library's own output form: valid values over years 1..9999, with and without milliseconds
     section("dt-own-form");
     int n = thorough ? 30000 : 3000;
     for (int i = 0; i < n; i++) dtRoundtrip(randCivil(rng));
     section("dt-boundary-days");
-    // the same instants held with another time spec (offset from UTC): the value that comes back is the same instant
-    for (int i = 0; i < n / 6; i++) {
-        Civil c = randCivil(rng);
-        if (c.y < 2 || c.y > 9998) continue;   // keep the UTC form inside the four-digit range
-        int off = (int(rng.below(2 * 14 * 4 + 1)) - 14 * 4) * 900;   // -14:00 .. +14:00 in quarter hours
-        QDateTime v(QDate(c.y, c.mo, c.d), QTime(c.h, c.mi, c.s, c.ms), Qt::OffsetFromUTC, off);
-        QString s = QXmppUtils::datetimeToString(v);
-        QDateTime back = QXmppUtils::datetimeFromString(s);
-        if (back.isValid() && back == v && back.toMSecsSinceEpoch() == v.toMSecsSinceEpoch()) oraclePass()++;
-        else oracleFail("C01:datetime-roundtrip", "value=" + showDt(v) + " offset=" + std::to_string(off) + " serialized=" + s.toStdString() + " parsed=" + showDt(back));
-        dtParse(s, "own");
-        stat("dt_roundtrip_offset_spec_values");
-    }
+    // values of every time spec (UTC, local time, fixed offset, time zone id), with and without milliseconds
+    dtSpecs(rng, thorough);
+    section("dt-boundary-days");
     // boundary days
     for (int y : { 1, 4, 100, 400, 1582, 1600, 1900, 1970, 1999, 2000, 2020, 2021, 2024, 2100, 2400, 9996, 9999 }) {
         for (int mo = 1; mo <= 12; mo++) {
@@ -623,7 +692,11 @@ static void enums(Rng &rng, bool thorough) {
 }
 
 int main(int argc, char **argv) {
-    setenv("TZ", "UTC", 1);   // "no zone" date-times are local time in Qt; the model takes local time = UTC
+    // Date-times without zone designator, and Qt::LocalTime values, are local time in Qt.  The harness runs in a zone that is
+    // NOT UTC, so that "converted to UTC" and "left as it is" differ: Asia/Kolkata (+05:30, no DST; the model's harnessLocalOffset);
+    // if the zone database lacks it, the POSIX form of the same zone.
+    setenv("TZ", "Asia/Kolkata", 1); tzset();
+    { time_t t0 = 1577836800; struct tm lt; localtime_r(&t0, &lt); if (lt.tm_gmtoff != 19800) { setenv("TZ", "IST-5:30", 1); tzset(); vh::stat("tz_fallback_posix_string"); } }
     QCoreApplication app(argc, argv);
     Args args = parseArgs(argc, argv);
     bool thorough = args.tier == "thorough";
